@@ -3,6 +3,10 @@ import facts
 import r_wprop
 import r_utf8sink
 import r_verbatim
+import r_fwd
+import r_scope
+import r_pair
+import r_nogrow
 
 TRUST_COMMON = [
     "rustc nightly: MIR (mir-opt-level=0), type and trait resolution as dumped by driver/lrfacts",
@@ -38,6 +42,55 @@ def c10(rep, tier):
         rep.analysed["config:all"] = {"bodies": len(p.fns), "crates": p.crates}
 
 
+def c18(rep, tier):
+    p = P("all")
+    r_fwd.run_runtime_matrix(p, rep)
+    r_fwd.run_lookup_keying(p, rep)
+    r_scope.run_build(p, rep)
+    r_scope.run_newruntime(p, rep)
+    rep.analysed["config:all"] = {"bodies": len(p.fns)}
+
+
+def c08(rep, tier):
+    p = P("all")
+    SB = "liquid_core::runtime::stack::SandboxedStackFrame"
+    r_fwd.run_runtime_matrix(p, rep, rows=[SB, "liquid_core::runtime::stack::GlobalFrame",
+                                           "liquid_core::runtime::stack::StackFrame", "&R"])
+    r_scope.run_scopetype(p, rep, keys=[k for k in r_scope.SCOPE_SPEC if "Render " in k or "Include " in k or "render_tag" in k or "include_tag" in k])
+    r_scope.run_rtcalls(p, rep, only=["liquid_lib::stdlib::tags::include_tag::Include", "liquid_lib::stdlib::tags::render_tag::Render"])
+    r_pair.check_loop_reset(p, rep, "<liquid_lib::stdlib::tags::render_tag::Render as liquid_core::runtime::renderable::Renderable>::render_to", "Render::render_to(for)")
+    rep.analysed["config:all"] = {"bodies": len(p.fns)}
+
+
+def c04(rep, tier):
+    p = P("all")
+    r_scope.run_build(p, rep)
+    r_scope.run_scopetype(p, rep)
+    r_fwd.run_runtime_matrix(p, rep, methods=["set_global", "set_index", "get_index", "get", "try_get"])
+    r_fwd.run_lookup_keying(p, rep)
+    r_scope.run_rtcalls(p, rep)
+    r_verbatim.param_unused(p, rep, "<liquid_lib::stdlib::blocks::capture_block::Capture as liquid_core::runtime::renderable::Renderable>::render_to", 2)
+    r_utf8sink.run_unsafe(p, rep)
+    rep.analysed["config:all"] = {"bodies": len(p.fns)}
+
+
+def c05(rep, tier):
+    p = P("all")
+    r_nogrow.run(p, rep)
+    r_pair.run_template_poll(p, rep)
+    r_pair.run_reset(p, rep)
+    r_pair.run_interrupt_tags(p, rep)
+    r_pair.run_for_else(p, rep)
+    rep.analysed["config:all"] = {"bodies": len(p.fns)}
+
+
+def c06(rep, tier):
+    p = P("all")
+    r_pair.run_excl_conditional(p, rep)
+    r_pair.run_excl_case(p, rep)
+    rep.analysed["config:all"] = {"bodies": len(p.fns)}
+
+
 PROPS = {
     "C10": {
         "run": c10,
@@ -57,5 +110,78 @@ PROPS = {
         "trusted": TRUST_COMMON,
         "assumptions": ["sequential evaluation of MIR statements; std's io::Write::write_fmt reports a failed write_all as Err"],
         "note": "trusted base: rustc MIR + std; decides propagation structure, not byte equality",
+    },
+    "C18": {
+        "run": c18,
+        "level": "other",
+        "design_ref": "DESIGN.md §3 R-FWD, R-SCOPETYPE; §4 C18",
+        "technique": "MIR role extraction per (Runtime impl, method) compared with a 54-cell forwarding/ownership matrix; CFG polarity of the membership branch",
+        "explanation": (
+            "Decided for all stacks and operation sequences, from MIR: every one of the 6 Runtime implementors x 9 methods has the role the layer "
+            "algebra needs (own data / forward to the SAME-named parent method / diverge), a sandbox never calls a parent lookup, roots = parent+own "
+            "(sandbox own only), set_global lands in GlobalFrame, set_index/get_index in IndexFrame, registers fresh in the sandbox; in get/try_get "
+            "membership is keyed by path.first(), own lookup is on the true edge and the parent on the false edge, get uses find and try_get try_find "
+            "on the whole path; RuntimeBuilder::build layers Global<Stack<Index<Core>,globals>>; RuntimeCore is never built elsewhere. "
+            "NOT decided: agreement of lookups on concrete operation sequences (find/try_find semantics, C07)."
+        ),
+        "trusted": TRUST_COMMON,
+        "note": "decides forwarding structure only; the stepwise lookup functions are C07's subject",
+    },
+    "C08": {
+        "run": c08,
+        "level": "other",
+        "design_ref": "DESIGN.md §3 R-SCOPETYPE, R-FWD, R-PAIR, R-RTCALLS; §4 C08",
+        "technique": "type of the runtime passed to the partial read off MIR (pre-coercion), sandbox rows of the forwarding matrix, reset-post-dominates-body CFG rule",
+        "explanation": (
+            "Decided from MIR for all programs: render hands the partial &GlobalFrame<SandboxedStackFrame<caller,args>> in both of its branches and "
+            "include hands &StackFrame<caller,args>, each layered directly over the caller's runtime; SandboxedStackFrame::get/try_get/roots never "
+            "call the parent and its registers are its own, while set_global of the fresh GlobalFrame is own; render-for resets the interrupt "
+            "after every body render before the back-edge or exit and Break leaves the loop. "
+            "NOT decided: non-interference of whole programs, error text, partial-store behaviour (C19)."
+        ),
+        "trusted": TRUST_COMMON,
+        "note": "structural necessary conditions of isolation/sharing; not a non-interference proof",
+    },
+    "C04": {
+        "run": c04,
+        "level": "other",
+        "design_ref": "DESIGN.md §3 R-SCOPETYPE, R-FWD, R-RTCALLS, R-VERBATIM; §4 C04",
+        "technique": "layer order read from the MIR type of RuntimeBuilder::build, forwarding matrix rows for set_global/set_index/get/try_get, per-renderable Runtime-operation census",
+        "explanation": (
+            "Decided from MIR: the per-render runtime is Global over caller data over counters over core; every construct renders its body in the "
+            "layers its scoping rule needs (for/tablerow/include: plain StackFrame over the caller's runtime; if/case/capture/ifchanged: the caller's "
+            "runtime itself); assign/capture call exactly set_global, increment/decrement exactly get_index/set_index; each layer answers from its "
+            "own data iff it holds the first path key, else delegates; capture never touches its writer; no user unsafe code. "
+            "NOT decided: the precedence outcome for each concrete program (follows from the above plus find())."
+        ),
+        "trusted": TRUST_COMMON,
+        "note": "caller data immutability rests on &dyn ObjectView + absence of unsafe (checked) and interior mutability (C09 R-FREEZE)",
+    },
+    "C05": {
+        "run": c05,
+        "level": "other",
+        "design_ref": "DESIGN.md §3 R-NOGROW, R-PAIR, R-EXCL; §4 C05",
+        "technique": "call census on the selected-elements vector (shrink/permute only) + CFG post-dominance of InterruptRegister::reset / interrupted poll",
+        "explanation": (
+            "Decided from MIR for all loops: iter_array only shrinks/permutes the element vector and returns it (no phantom elements); the body "
+            "template polls the interrupt register after every element and stops on it; For resets the interrupt after every body render before "
+            "the back-edge or exit and leaves the loop on Break; break/continue set their own kind; the else branch runs only on the len()==0 edge. "
+            "NOT decided: window arithmetic (offset/limit values) and every forloop/tablerow field (numeric)."
+        ),
+        "trusted": TRUST_COMMON,
+        "note": "numeric clauses of the property are declared out of reach of static analysis",
+    },
+    "C06": {
+        "run": c06,
+        "level": "other",
+        "design_ref": "DESIGN.md §3 R-EXCL, R-CONSTRUCT, R-TABLE; §4 C06",
+        "technique": "CFG mutual-unreachability of branch renders and edge polarity of the condition switch",
+        "explanation": (
+            "Decided from MIR: Conditional renders if_true only on the true edge and if_false only on the false edge of one switch on compare(), "
+            "compare() is evaluate()==mode (unless = negated if); Case renders the first arm whose test is true and returns, else only after the "
+            "arm loop is exhausted. NOT decided: the value of each comparison (C11)."
+        ),
+        "trusted": TRUST_COMMON,
+        "note": "exactly-one-branch structure only",
     },
 }
